@@ -10,4 +10,4 @@ import ThriftVerif.Props.C09
 #print axioms Props.C09.carrying_iff
 #print axioms Props.C09.keep_roundtrip
 #print axioms Props.C09.chain
-#print axioms Props.C09.union_unknown_member_not_rewritable
+#print axioms Props.C09.union_unknown_member_rewritten
